@@ -288,6 +288,14 @@ def date_const(ck, F):
                             c = const_int({"k": r["const"]})
                             if c is not None:
                                 consts.add(c)
+            # the same test written as `(MIN..=MAX).contains(&serial)`: the bounds of the promoted constant range
+            for bi, t in ir.calls():
+                if (ir.callee_q(t) or "").rsplit("::", 1)[-1] == "contains" and t["args"]:
+                    import zones as _z
+                    from effects import Program as _P
+                    rng = _z.Analysis(ir, _P(F), F)._const_range(t["args"][0])
+                    if rng is not None:
+                        consts |= {rng[0], rng[1]}
             ck.ob(R, "is_date_within_range|same-bounds", consts == {mn, mx}, "is_date_within_range tests %s, from_excel_date tests %s" % (sorted(consts), [mn, mx]), ir.file, ir.line)
     # every date -> serial site applies the same translation
     n = 0
